@@ -483,38 +483,38 @@ func checkCmdKeys(e *Env, p *load.Program) {
 			r.Unknown("E4.cmdpath", s.fn, "", "package not loaded")
 			continue
 		}
+		// every struct type of the command (named or anonymous, local or at package level) that embeds a seccomp.Policy
+		// value is a document layout; the function name is only used for the report
 		found := false
 		for _, f := range pk.Syntax {
-			for _, d := range f.Decls {
-				fd, ok := d.(*ast.FuncDecl)
-				if !ok || fd.Name.Name != s.fn || fd.Body == nil {
-					continue
-				}
-				ast.Inspect(fd.Body, func(n ast.Node) bool {
-					ts, ok := n.(*ast.TypeSpec)
-					if !ok {
-						return true
-					}
-					st, ok := pk.TypesInfo.TypeOf(ts.Type).Underlying().(*types.Struct)
-					if !ok {
-						return true
-					}
-					for i := 0; i < st.NumFields(); i++ {
-						ft, ok := st.Field(i).Type().(*types.Named)
-						if !ok || ft.Obj().Name() != "Policy" || ft.Obj().Pkg().Path() != load.PkgRoot {
-							continue
-						}
-						found = true
-						k, okk := tables.Tag(st.Tag(i), s.tagKey)
-						if !okk || k == "" {
-							k = strings.ToLower(st.Field(i).Name())
-						}
-						r.Check(k == "seccomp", "E4.cmdpath", s.fn+"/key", p.Pos(ts.Pos()), fmt.Sprintf("%s key of the Policy field is %q", s.tagKey, k),
-							fmt.Sprintf("%s uses %s key %q for the policy; the documented key is \"seccomp\"", s.fn, s.tagKey, k))
-					}
+			ast.Inspect(f, func(n ast.Node) bool {
+				ste, ok := n.(*ast.StructType)
+				if !ok {
 					return true
-				})
-			}
+				}
+				tt := pk.TypesInfo.TypeOf(ste)
+				if tt == nil {
+					return true
+				}
+				st, ok := tt.Underlying().(*types.Struct)
+				if !ok {
+					return true
+				}
+				for i := 0; i < st.NumFields(); i++ {
+					ft, ok := st.Field(i).Type().(*types.Named)
+					if !ok || ft.Obj().Name() != "Policy" || ft.Obj().Pkg() == nil || ft.Obj().Pkg().Path() != load.PkgRoot {
+						continue
+					}
+					found = true
+					k, okk := tables.Tag(st.Tag(i), s.tagKey)
+					if !okk || k == "" {
+						k = strings.ToLower(st.Field(i).Name())
+					}
+					r.Check(k == "seccomp", "E4.cmdpath", s.fn+"/key", p.Pos(ste.Pos()), fmt.Sprintf("%s key of the Policy field is %q", s.tagKey, k),
+						fmt.Sprintf("%s uses %s key %q for the policy; the documented key is \"seccomp\"", s.fn, s.tagKey, k))
+				}
+				return true
+			})
 		}
 		if !found {
 			r.Unknown("E4.cmdpath", s.fn, "", "no local struct with a seccomp.Policy field found")
